@@ -77,6 +77,78 @@ theorem not_callable (Γ : Ctx) (s : Bool) (base : PExpr) (args : PExprs)
     ⟨.notCallable, .notCallable⟩ ∈ (checkExpr Γ s (.call base args)).errs := by
   simp only [checkExpr, hc]; exact wrap_mem (by simp)
 
+/-! ### spawn -/
+
+theorem anyOK_null (s : Bool) : anyOK s .null = true := by cases s <;> rfl
+
+theorem wrap_ty_null {s : Bool} {r : Res} (h : r.ty = .null) : (wrap s r).ty = .null := by
+  rw [wrap_of_ok (by rw [h]; exact anyOK_null s)]; exact h
+
+/-- the base of a `spawn` that names a variable of a function type is that variable -/
+theorem spawn_base_ty (Γ : Ctx) (name : String) (t : Ty) (hl : lookupTy name Γ.vars = some t) (hk : t.kind = .fn) :
+    (wrap true (identRes Γ name)).ty = t := by
+  have hlk : Γ.lookup name = some t := by simp [Ctx.lookup, hl]
+  have hany : anyOK true t = true := by simp [anyOK, hk]
+  simp only [identRes, hlk]; rw [wrap_of_ok hany]
+
+theorem callee_fn_kind {t : Ty} {ps ret} (h : callee t = .fn ps ret) : t.kind = .fn := by
+  cases t <;> simp [callee] at h ⊢ <;> rfl
+
+theorem callee_var_kind {t : Ty} {ps rest ret} (h : callee t = .var ps rest ret) : t.kind = .fn := by
+  cases t <;> simp [callee] at h ⊢ <;> rfl
+
+/-- a `spawn` of a variable that holds a function (local, parameter, global, builtin) -/
+theorem spawn_non_function_fn (Γ : Ctx) (s : Bool) (name : String) (args : PExprs) (t : Ty) (ps : List (String × Ty)) (ret : Ty)
+    (hl : lookupTy name Γ.vars = some t) (hc : callee t = .fn ps ret) :
+    ⟨.spawnNonFunction, .spawnNonFunction⟩ ∈ (checkExpr Γ s (.spawn name args)).errs := by
+  simp only [checkExpr, spawn_base_ty Γ name t hl (callee_fn_kind hc), hc]
+  split <;> exact wrap_mem (by simp [spawnTargetErr, hl])
+
+theorem spawn_non_function_var (Γ : Ctx) (s : Bool) (name : String) (args : PExprs) (t : Ty) (ps : List Ty) (rest ret : Ty)
+    (hl : lookupTy name Γ.vars = some t) (hc : callee t = .var ps rest ret) :
+    ⟨.spawnNonFunction, .spawnNonFunction⟩ ∈ (checkExpr Γ s (.spawn name args)).errs := by
+  simp only [checkExpr, spawn_base_ty Γ name t hl (callee_var_kind hc), hc]
+  split <;> exact wrap_mem (by simp [spawnTargetErr, hl])
+
+/-- a `spawn` of something that cannot be called -/
+theorem spawn_not_callable (Γ : Ctx) (s : Bool) (name : String) (args : PExprs)
+    (hc : callee (wrap true (identRes Γ name)).ty = .bad) :
+    ⟨.notCallable, .notCallable⟩ ∈ (checkExpr Γ s (.spawn name args)).errs := by
+  simp only [checkExpr, hc]; exact wrap_mem (by simp)
+
+/-- a function value as an argument of a `spawn` -/
+theorem spawn_closure_arg (Γ : Ctx) (ps : List Ty) (rest : Option Ty) (a : PExpr) (as : PExprs)
+    (hk : (checkExpr Γ true a).ty.kind = .fn) :
+    ⟨.closureAcrossThreads, .closureAcrossThreads⟩ ∈ (checkSpawnArgs Γ ps rest (.cons a as)).errs := by
+  simp [checkSpawnArgs, hk]
+
+/-- errors of the arguments reach the `spawn` (when the number of arguments is right) -/
+theorem spawn_args_errors (Γ : Ctx) (s : Bool) (name : String) (args : PExprs) (ps : List (String × Ty)) (ret : Ty) (e : Err)
+    (hc : callee (wrap true (identRes Γ name)).ty = .fn ps ret) (hlen : args.length = ps.length)
+    (h : e ∈ (checkSpawnArgs Γ (ps.map (·.2)) none args).errs) :
+    e ∈ (checkExpr Γ s (.spawn name args)).errs := by
+  simp only [checkExpr, hc, hlen, bne_self_eq_false, Bool.false_eq_true, ↓reduceIte]
+  exact wrap_mem (by simp [h])
+
+/-- a `spawn` has no value, whatever is spawned and whatever goes wrong -/
+theorem spawn_ty_null (Γ : Ctx) (s : Bool) (name : String) (args : PExprs) :
+    (checkExpr Γ s (.spawn name args)).ty = .null := by
+  simp only [checkExpr]
+  split
+  · split <;> exact wrap_ty_null rfl
+  · split <;> exact wrap_ty_null rfl
+  · exact wrap_ty_null rfl
+  · exact wrap_ty_null rfl
+
+/-- … so it has no member either: thread handles (`.join`) do not exist -/
+theorem spawn_no_member (Γ : Ctx) (s : Bool) (name : String) (args : PExprs) (m : String) :
+    ⟨.unknownMember, .unknownMember⟩ ∈ (checkExpr Γ s (.member (.spawn name args) m .dot)).errs := by
+  have hty := spawn_ty_null Γ false name args
+  have hr : memberRule (checkExpr Γ false (.spawn name args)).ty m .dot = none := by rw [hty]; rfl
+  have hk : ((checkExpr Γ false (.spawn name args)).ty.kind == Kind.any) = false := by rw [hty]; rfl
+  simp only [checkExpr] at hr hk ⊢
+  simp only [hr, hk, Bool.false_eq_true, ↓reduceIte]; exact wrap_mem (by simp)
+
 /-! ### return, assignment, condition, branches, iterator -/
 
 theorem return_mismatch (Γ : Ctx) (e : PExpr) (rt : Ty) (m : Msg) (hr : Γ.ret = some rt)
